@@ -3,6 +3,7 @@
 package main
 
 import (
+	"context"
 	"bufio"
 	"bytes"
 	"fmt"
@@ -41,9 +42,39 @@ func c19Probe(tr http.RoundTripper) (*vhook.Dialer, *http.Transport) {
 	return vhook.Probed, t
 }
 
+// c19Bypass names a dial path of the transport that does not go through the configured
+// (recording) dialer: net/http prefers DialTLSContext / DialTLS for https and DialContext for http.
+func c19Bypass(t *http.Transport) string {
+	if t == nil {
+		return ""
+	}
+	type path struct {
+		name string
+		call func()
+	}
+	var paths []path
+	if t.DialContext != nil {
+		paths = append(paths, path{"DialContext", func() { t.DialContext(context.Background(), "verif-probe", "") }})
+	}
+	if t.DialTLSContext != nil {
+		paths = append(paths, path{"DialTLSContext", func() { t.DialTLSContext(context.Background(), "verif-probe", "") }})
+	}
+	if t.DialTLS != nil {
+		paths = append(paths, path{"DialTLS", func() { t.DialTLS("verif-probe", "") }})
+	}
+	for _, p := range paths {
+		vhook.Probed = nil
+		ev.Guard(p.call)
+		if vhook.Probed == nil {
+			return p.name
+		}
+	}
+	return ""
+}
+
 func TestVerifC19Config(t *testing.T) {
 	L := ev.Begin("C19", "c19-config", "exploration",
-		"every combination of the five proxy transport options over {0, 50ms/7, 3s/4242} (3^5) -> transport.SetConfig -> the transports fabio builds: default and skip-verify (main.newHTTPProxy) and the per-route transport of a `host=x proto=https` target; compared field by field (ResponseHeaderTimeout, IdleConnTimeout, MaxIdleConnsPerHost, and dial Timeout/KeepAlive read off the dialer the transport carries). non-trivial = combination with at least one non-zero value")
+		"every combination of the five proxy transport options over {0, 50ms/7, 3s/4242} (3^5) -> transport.SetConfig -> the transports fabio builds: default and skip-verify (main.newHTTPProxy) and the per-route transport of a `host=x proto=https` target; compared field by field (ResponseHeaderTimeout, IdleConnTimeout, MaxIdleConnsPerHost, and dial Timeout/KeepAlive read off the dialer the transport carries; every dial path the transport offers - Dial, DialContext, DialTLS, DialTLSContext - must end in that dialer). non-trivial = combination with at least one non-zero value")
 	durs := []time.Duration{0, 50 * time.Millisecond, 3 * time.Second}
 	conns := []int{0, 7, 4242}
 	for _, dial := range durs {
@@ -95,6 +126,9 @@ func TestVerifC19Config(t *testing.T) {
 								L.Violation("dial-timeout-not-the-configured-one", desc)
 							case d.KeepAlive != ka:
 								L.Violation("keep-alive-not-the-configured-one", desc)
+							case c19Bypass(ht) != "":
+								desc["dial_path"] = c19Bypass(ht)
+								L.Violation("dial-path-bypasses-the-configured-dialer/"+name, desc)
 							}
 						}
 					}
@@ -208,6 +242,94 @@ func TestVerifC19Behaviour(t *testing.T) {
 			case mode == "prompt" && rec.Body.String() != "ok":
 				L.Violation("prompt-upstream-not-served", d)
 			}
+		}
+	}
+	// idle connections per host: with proxy.maxconn=500 two bursts of 60 concurrent requests to each of two
+	// upstreams must be served by 60 connections per upstream - the second burst finds the first one's idle
+	{
+		type cup struct {
+			srv     *httptest.Server
+			accepts int64
+			arrived chan struct{}
+			release chan struct{}
+		}
+		mk := func() *cup {
+			u := &cup{arrived: make(chan struct{}, 256), release: make(chan struct{})}
+			u.srv = httptest.NewUnstartedServer(http.HandlerFunc(func(w http.ResponseWriter, r *http.Request) {
+				u.arrived <- struct{}{}
+				<-u.release
+				w.Write([]byte("ok"))
+			}))
+			u.srv.Config.ConnState = func(c net.Conn, st http.ConnState) {
+				if st == http.StateNew {
+					atomic.AddInt64(&u.accepts, 1)
+				}
+			}
+			u.srv.Start()
+			return u
+		}
+		ups := []*cup{mk(), mk()}
+		cfg := &config.Config{}
+		cfg.Proxy.MaxConn = 500
+		cfg.Proxy.DialTimeout = 5 * time.Second
+		cfg.Proxy.Strategy, cfg.Proxy.Matcher, cfg.GlobCacheSize = "rr", "prefix", 10
+		transport.SetConfig(cfg)
+		hp := newHTTPProxy(cfg, c19Stats())
+		tbl, err := route.NewTable(bytes.NewBufferString(fmt.Sprintf("route add u0 u0.example/ http://%s/\nroute add u1 u1.example/ http://%s/\n", ups[0].srv.Listener.Addr(), ups[1].srv.Listener.Addr())))
+		if err != nil {
+			panic(err)
+		}
+		route.SetTable(tbl)
+		const per = 60
+		okAll := true
+		for burst := 0; burst < 2; burst++ {
+			var wg sync.WaitGroup
+			for ui := range ups {
+				ups[ui].release = make(chan struct{})
+				for k := 0; k < per; k++ {
+					wg.Add(1)
+					go func(ui int) {
+						defer wg.Done()
+						req, _ := http.ReadRequest(bufio.NewReader(bytes.NewBufferString(fmt.Sprintf("GET /x HTTP/1.1\r\nHost: u%d.example\r\n\r\n", ui))))
+						req.RemoteAddr = "10.1.1.1:999"
+						rec := httptest.NewRecorder()
+						hp.ServeHTTP(rec, req)
+						if rec.Code != 200 {
+							okAll = false
+						}
+					}(ui)
+				}
+			}
+			// all requests of the burst are in flight at the same time (so each needs its own connection)
+			for ui := range ups {
+				for k := 0; k < per; k++ {
+					select {
+					case <-ups[ui].arrived:
+					case <-time.After(20 * time.Second):
+						panic("VERIF-INFRA: burst did not reach the upstream")
+					}
+				}
+			}
+			for ui := range ups {
+				close(ups[ui].release)
+			}
+			wg.Wait()
+			time.Sleep(50 * time.Millisecond) // let the transport park the connections
+		}
+		L.Case()
+		L.NontrivialKey("idle-pool")
+		got := []int64{atomic.LoadInt64(&ups[0].accepts), atomic.LoadInt64(&ups[1].accepts)}
+		d := map[string]interface{}{"proxy.maxconn": 500, "bursts": 2, "concurrent_requests_per_upstream": per, "connections_accepted_per_upstream": got, "all_requests_served": okAll}
+		L.Sample(d)
+		L.Outcome(fmt.Sprint(got))
+		if !okAll {
+			L.Violation("prompt-upstream-not-served", d)
+		}
+		if got[0] != per || got[1] != per {
+			L.Violation("idle-connections-per-host-not-kept-as-configured", d)
+		}
+		for _, u := range ups {
+			u.srv.Close()
 		}
 	}
 	transport.SetConfig(&config.Config{})
